@@ -287,3 +287,9 @@ def opts_to_argv(opts, rng=None, extra=()):
     if rng is not None:
         rng.shuffle(chunks)
     return [t for c in chunks for t in c]
+
+
+def even_spread(total, n):
+    """As even as possible, larger shares first, summing to total."""
+    q, r = divmod(int(total), n)
+    return [q + 1 if i < r else q for i in range(n)]
